@@ -5,6 +5,7 @@ import json, os, subprocess, sys, shutil, glob
 V = '/verif'
 VAULT_T = 'contracts/liquidity_hub/vault-network/vault/tests'
 INC_T = 'contracts/liquidity_hub/pool-network/incentive/src/tests'
+PN_D = 'contracts/liquidity_hub/pool-network'
 def integ(crate_dir, pkg, f): return dict(dest=crate_dir + '/tests', mod=None, cmd=['cargo', 'test', '-p', pkg, '--offline', '--test', f[:-3]])
 SEEDS = {
  'C08-1': dict(f='seeded_c08_1.rs', **integ('contracts/liquidity_hub/whale_lair', 'whale-lair', 'seeded_c08_1.rs')),
@@ -19,6 +20,30 @@ SEEDS = {
  'C06-2': dict(f='seeded_c06_2.rs', **integ('contracts/liquidity_hub/vault-network/vault', 'vault', 'seeded_c06_2.rs')),
  'C05-1': dict(f='c05_seeded_1.rs', **integ('contracts/liquidity_hub/vault-network/vault', 'vault', 'c05_seeded_1.rs')),
  'C05-2': dict(f='c05_seeded_2.rs', **integ('contracts/liquidity_hub/vault-network/vault', 'vault', 'c05_seeded_2.rs')),
+ 'C02-1': dict(f='c02_seed1_fee_split.rs', **integ(PN_D + '/terraswap_pair', 'terraswap-pair', 'c02_seed1_fee_split.rs')),
+ 'C02-2': dict(f='c02_seed2_exact_price.rs', **integ(PN_D + '/terraswap_pair', 'terraswap-pair', 'c02_seed2_exact_price.rs')),
+ 'C04-1': dict(f='c04_seed1_swap_direction.rs', **integ(PN_D + '/stableswap_3pool', 'stableswap-3pool', 'c04_seed1_swap_direction.rs')),
+ 'C04-2': dict(f='c04_seed2_amp_reramp.rs', **integ(PN_D + '/stableswap_3pool', 'stableswap-3pool', 'c04_seed2_amp_reramp.rs')),
+ 'C07-1': dict(f='c07_collect_during_loan.rs', **integ('contracts/liquidity_hub/vault-network/vault', 'vault', 'c07_collect_during_loan.rs')),
+ 'C07-2': dict(f='c07_burn_ledger_third_asset.rs', **integ(PN_D + '/stableswap_3pool', 'stableswap-3pool', 'c07_burn_ledger_third_asset.rs')),
+ 'C10-1': dict(f='seeded_c10_take_rate_magnitude.rs', **integ('contracts/liquidity_hub/fee_collector', 'fee_collector', 'seeded_c10_take_rate_magnitude.rs')),
+ 'C10-2': dict(f='seeded_c10_collection_failure.rs', **integ('contracts/liquidity_hub/fee_collector', 'fee_collector', 'seeded_c10_collection_failure.rs')),
+ 'C11-1': dict(f='seeded_c11_1.rs', **integ(PN_D + '/incentive', 'incentive', 'seeded_c11_1.rs')),
+ 'C11-2': dict(f='seeded_c11_2.rs', **integ(PN_D + '/incentive', 'incentive', 'seeded_c11_2.rs')),
+ 'C12-1': dict(f='c12_demo_1.rs', **integ(PN_D + '/incentive', 'incentive', 'c12_demo_1.rs')),
+ 'C12-2': dict(f='c12_demo_2.rs', **integ(PN_D + '/incentive', 'incentive', 'c12_demo_2.rs')),
+ 'C14-1': dict(f='c14_sim_eq_exec_pending_fees.rs', **integ(PN_D + '/terraswap_pair', 'terraswap-pair', 'c14_sim_eq_exec_pending_fees.rs')),
+ 'C14-2': dict(f='c14_trio_sim_eq_exec_all_directions.rs', **integ(PN_D + '/stableswap_3pool', 'stableswap-3pool', 'c14_trio_sim_eq_exec_all_directions.rs')),
+ 'C15-1': dict(f='c15_minimum_receive_receiver.rs', **integ(PN_D + '/terraswap_router', 'terraswap-router', 'c15_minimum_receive_receiver.rs')),
+ 'C15-2': dict(f='c15_belief_price_zero_spread.rs', **integ(PN_D + '/terraswap_pair', 'terraswap-pair', 'c15_belief_price_zero_spread.rs')),
+ 'C16-1': dict(f='c16_callback_during_loan.rs', **integ('contracts/liquidity_hub/vault-network/vault', 'vault', 'c16_callback_during_loan.rs')),
+ 'C16-2': dict(f='c16_next_loan_unregistered_asset.rs', **integ('contracts/liquidity_hub/vault-network/vault_router', 'vault_router', 'c16_next_loan_unregistered_asset.rs')),
+ 'C17-1': dict(f='seeded_c17_ramp_toggle.rs', **integ(PN_D + '/stableswap_3pool', 'stableswap-3pool', 'seeded_c17_ramp_toggle.rs')),
+ 'C17-2': dict(f='seeded_c17_nested_loan.rs', **integ('contracts/liquidity_hub/vault-network/vault', 'vault', 'seeded_c17_nested_loan.rs')),
+ 'C18-1': dict(f='seed_c18_pool_fee_sum.rs', **integ(PN_D + '/terraswap_pair', 'terraswap-pair', 'seed_c18_pool_fee_sum.rs')),
+ 'C18-2': dict(f='seed_c18_amp_ramp_bounds.rs', **integ(PN_D + '/stableswap_3pool', 'stableswap-3pool', 'seed_c18_amp_ramp_bounds.rs')),
+ 'C19-1': dict(f='c19_router_unregistered_hop.rs', **integ('contracts/liquidity_hub/fee_collector', 'fee_collector', 'c19_router_unregistered_hop.rs')),
+ 'C19-2': dict(f='c19_trio_permutations.rs', **integ('contracts/liquidity_hub/fee_collector', 'fee_collector', 'c19_trio_permutations.rs')),
 }
 try: SEEDS.update(json.load(open(V + '/seeded/extra_seeds.json')))
 except Exception: pass
@@ -77,9 +102,12 @@ def run(sid, checks):
     if sh(['git', 'apply', patch], '/repo'): print('patch does not apply'); sys.exit(8)
     res = {}
     try:
+        procs = {cid: subprocess.Popen([V + '/check', cid, '--tier', 'quick'], cwd=V, stdout=subprocess.PIPE, stderr=subprocess.STDOUT, text=True) for cid in checks}
         for cid in checks:
             log = '%s/.cache/logs/seed_%s_%s.log' % (V, sid, cid)
-            r = subprocess.run([V + '/check', cid, '--tier', 'quick'], cwd=V, capture_output=True, text=True)
+            so, _ = procs[cid].communicate()
+            class R: pass
+            r = R(); r.stdout = so; r.stderr = ''; r.returncode = procs[cid].returncode
             open(log, 'w').write(r.stdout + r.stderr)
             viol = sorted({l.strip().split(' at ')[0].replace('obligation ', '') for l in r.stdout.split('\n') if l.strip().startswith('obligation ')})
             res[cid] = dict(exit=r.returncode, violations=r.stdout.count('VIOLATION property='), obligations=viol[:8])
